@@ -5,6 +5,7 @@ CONSTANTS
   DEnd = 4
   Secs = {0, 43200}
   Bounds = {86400, 172800}
+  ContinueAfterInfinite = FALSE
   Unsound = FALSE
-INVARIANTS StreamOk RangeOk FirstOk BoundOk Progress
+INVARIANTS StreamOk RangeOk FirstOk BoundOk Progress BoundPartition
 CHECK_DEADLOCK FALSE
